@@ -43,7 +43,7 @@ SeekItems == { [it EXCEPT !.seekable = TRUE, !.skip = k] : it \in { i \in SniffI
 PlainItems == { Item(n, d, 1500, "text", 0, 0) : n \in Names, d \in Declared }
 
 In0 == [media |-> MULTIPART, method |-> "POST", presetct |-> "", payload |-> "none", fields |-> <<>>, files |-> <<>>, auth |-> FALSE, defauth |-> FALSE, k |-> 0,
-        fault |-> FALSE, debug |-> FALSE]
+        fault |-> FALSE, debug |-> FALSE, pseek |-> FALSE, pskip |-> 0]
 Init == track = "start" /\ in = In0
 
 Ids == [payload |-> "P", ref |-> "P", files |-> [i \in 1..Len(in.files) |-> [j \in 1..Len(in.files[i].items) |-> <<i, j>>]]]
@@ -83,6 +83,10 @@ DefaultPlacement ==   \* the runtime-wide default writer, alone or next to the o
   /\ track = "payload" /\ ~in.defauth
   /\ in' = [in EXCEPT !.defauth = TRUE]
   /\ track' = "payload"
+SeekablePayload ==    \* a seekable reader payload handed over at its start or past a consumed preamble
+  /\ track = "payload" /\ ~in.pseek /\ in.payload \in {"reader", "readcloser"}
+  /\ \E k \in {0, 1} : in' = [in EXCEPT !.pseek = TRUE, !.pskip = k]
+  /\ UNCHANGED track
 AuthOnForms ==      \* auth writers on form bodies (buffered urlencoded, streaming multipart)
   /\ track = "structure" /\ ~in.auth
   /\ \E k \in 0..MaxK, dbg \in BOOLEAN, pl \in {"op", "default", "both"} :
@@ -90,7 +94,7 @@ AuthOnForms ==      \* auth writers on form bodies (buffered urlencoded, streami
         /\ in' = [in EXCEPT !.auth = (pl # "default"), !.defauth = (pl # "op"), !.k = k, !.debug = dbg]
   /\ track' = "structure-auth"
 
-Next == DefaultPlacement \/ SniffTrack \/ StartStructure \/ AddFileField \/ AddItem \/ AddField \/ AddValue \/ PayloadTrack \/ AuthOnForms
+Next == SeekablePayload \/ DefaultPlacement \/ SniffTrack \/ StartStructure \/ AddFileField \/ AddItem \/ AddField \/ AddValue \/ PayloadTrack \/ AuthOnForms
 Spec == Init /\ [][Next]_vars
 
 \* the observation a faithful recorder makes of the model's body
